@@ -12,6 +12,7 @@ import (
 	"time"
 
 	"verifharness/evid"
+	"verifharness/ircsim"
 
 	"github.com/fluffle/goirc/client"
 	"pgregory.net/rapid"
@@ -78,7 +79,7 @@ type c03Scenario struct {
 	Handlers   map[string][]c03Handler `json:"handlers"` // per verb
 	Cuts       []int                   `json:"cuts"`     // segmentation of the phase-1 byte stream
 	Unread     int                     `json:"unread"`   // trailing lines sent right before the disconnect
-	Cause      string                  `json:"cause"`    // eof, readerr, close
+	Cause      string                  `json:"cause"`    // eof, readerr, close, temperr (a transient read error in the middle of a long line)
 	Procs      int                     `json:"gomaxprocs"`
 	WelcomeNew bool                    `json:"welcome_new_nick"`
 	Cycles     int                     `json:"cycles"` // the same client runs the session again after reconnecting (0/1 = once)
@@ -132,7 +133,7 @@ func genC03(t *rapid.T) *c03Scenario {
 			case 1:
 				h.K = rapid.IntRange(1, 20).Draw(t, "yields")
 			case 2:
-				h.K = rapid.SampledFrom([]int{10, 50, 100, 500}).Draw(t, "sleep_us")
+				h.K = rapid.SampledFrom([]int{10, 50, 100, 500, 10, 50, 100, 500, 10, 4000}).Draw(t, "sleep_us") // (4 ms outlasts a lowered Config().Timeout)
 			}
 			sc.Handlers[v] = append(sc.Handlers[v], h)
 		}
@@ -150,7 +151,7 @@ func genC03(t *rapid.T) *c03Scenario {
 	}
 	sort.Ints(sc.Cuts)
 	sc.Unread = rapid.IntRange(0, 20).Draw(t, "unread")
-	sc.Cause = rapid.SampledFrom([]string{"eof", "readerr", "close"}).Draw(t, "cause")
+	sc.Cause = rapid.SampledFrom([]string{"eof", "readerr", "close", "temperr"}).Draw(t, "cause")
 	sc.Procs = rapid.SampledFrom([]int{1, 2, 4, 16}).Draw(t, "gomaxprocs")
 	sc.WelcomeNew = rapid.Bool().Draw(t, "welcome_new")
 	sc.Cycles = rapid.SampledFrom([]int{1, 1, 2}).Draw(t, "cycles")
@@ -306,7 +307,22 @@ func runC03Cycle(sc *c03Scenario, tc *testClient, curLog *atomic.Pointer[hLog], 
 	for i := acked; i < total; i++ {
 		tailb.WriteString(c03Wire(sc.Verbs[i], i+1, false, welcomeNick) + "\r\n")
 	}
-	conn.Send(tailb.String())
+	if sc.Cause == "temperr" {
+		// one more line, a long one, reaches the client in two reads with a transient error between them.
+		// The client may give the connection up there (then nothing more is delivered) or carry on; what
+		// it must not do is take the second part for a line of its own.
+		long := c03Wire("CUSTOM", total+1, true, welcomeNick)
+		cut := len(long) - 101 // inside the padding, at the start of a token
+		tailb.WriteString(long[:cut])
+		conn.Send(tailb.String())
+		conn.SendErrOnce(ircsim.TempError{})
+		conn.Send(long[cut:] + "\r\n")
+		if !waitCond(300*time.Millisecond, func() bool { return !tc.C.Connected() }) {
+			go tc.C.Close()
+		}
+	} else {
+		conn.Send(tailb.String())
+	}
 	switch sc.Cause {
 	case "eof":
 		conn.EOF()
@@ -398,8 +414,12 @@ func runC03Cycle(sc *c03Scenario, tc *testClient, curLog *atomic.Pointer[hLog], 
 		}
 	}
 	for s, sp := range perSeq {
-		if s > 0 && len(sp) != len(sc.Handlers[sc.Verbs[s-1]]) {
-			return violationf("C03", "line %d ran %d handler invocations, want %d", s, len(sp), len(sc.Handlers[sc.Verbs[s-1]]))
+		verb := "CUSTOM" // (the extra long line of the temperr cause)
+		if s >= 1 && s <= len(sc.Verbs) {
+			verb = sc.Verbs[s-1]
+		}
+		if s > 0 && len(sp) != len(sc.Handlers[verb]) {
+			return violationf("C03", "line %d ran %d handler invocations, want %d", s, len(sp), len(sc.Handlers[verb]))
 		}
 	}
 	// (d) CONNECTED
